@@ -309,16 +309,27 @@ func UpdateCheckpoint(outCli client.Redis, localCheckpoint string, ids []string)
 			Offset:  -1,
 			Version: config.Version,
 		}
+		cpDb := 0
 		if len(cpName) > 0 { // restore old checkpoint
-			cpKv, _, err = GetCheckpoint(outCli, cpName, ids)
+			cpKv, cpDb, err = GetCheckpoint(outCli, cpName, ids)
 			if err != nil {
 				return err
+			}
+			if cpDb < 0 {
+				cpDb = 0
 			}
 		}
 
 		oldId := cpKv.RunId
 		cpKv.Key = localCheckpoint
 		cpKv.RunId = id1
+		// GetCheckpoint leaves the connection in whichever database its scan ended in; the
+		// offset is only valid for the database the old checkpoint lives in, so write the
+		// new one there.
+		err = redis.SelectDB(outCli, uint32(cpDb))
+		if err != nil {
+			return err
+		}
 		err = SetCheckpoint(outCli, cpKv)
 		if err != nil {
 			return err
